@@ -77,6 +77,7 @@ def stepClos (r : Recv) (ts : List String) : Recv × String :=
   | .cnd c, ["rpol", n] => (.cnd (c.setRpf (polArg n)), "-")
   | .cnd c, ["epol", n] => (.cnd (c.setEqf (polArg n)), "-")
   | .cnd c, ["upol", n] => (.cnd (c.setUmf (polArg n)), "-")
+  | .cnd c, ["ro", b] => (.cnd { c with cfg := c.cfg.setState Gen.flag_ronly (some (b == "1")) }, "-")
   | .cnd c, ["clrerr"] => (.cnd { c with cfg := { c.cfg with err := none } }, "-")
   | .cnd c, ["seterr"] => (.cnd { c with cfg := { c.cfg with err := some 7 } }, "-")
   | .cnd c, ["fold", _] => (.cnd c, "-")
